@@ -75,7 +75,7 @@ pub fn replay_known_staged<C: DeserializeOwned>(
 ) {
   for e in &known.entries {
     let Some(w) = &e.witness else { continue };
-    let path = Path::new(VERIF).join(w);
+    let path = crate::engine::verif_root().join(w);
     if path.exists() && !stage.is_empty() && (read_replay(&path).stage == stage) != want_match {
       continue;
     }
